@@ -208,7 +208,16 @@ func classify(gs []Gor) Hang {
 	upSetKey := has(entries, func(e string) bool {
 		return c(e, "Device.upLocked>") && strings.HasSuffix(e, "Device.CreateMessageInitiation@RWMutex.RLock")
 	}) && has(entries, func(e string) bool { return strings.HasSuffix(e, "Device.SetPrivateKey@RWMutex.Lock") })
+	// Down (or a failed Up) in downLocked>Peer.Stop, SetPrivateKey blocked on a write lock
+	// (peers.Lock, holding staticIdentity.Lock), somebody in CreateMessageInitiation
+	stopFromDown := has(entries, func(e string) bool {
+		return c(e, "Device.downLocked>Peer.Stop") && !c(e, "Device.Close>") &&
+			(strings.HasSuffix(e, "@WaitGroup.Wait") || strings.HasSuffix(e, "Timer.DelSync@Mutex.Lock"))
+	})
+	setKeyW := has(entries, func(e string) bool { return strings.HasSuffix(e, "Device.SetPrivateKey@RWMutex.Lock") })
 	switch {
+	case stopFromDown && setKeyW && createInitR && !consumeRespR:
+		h.Key = "deadlock-down-vs-setprivatekey-vs-rekey"
 	case bindUpdR && sendBufR && stopFromRemove:
 		h.Key = "deadlock-bindupdate-vs-removepeer"
 	case stopFromSetKey && createInitR:
